@@ -215,10 +215,14 @@ func vsigThread(sigOp byte) *vsigEnv {
 	script = append(script, sigOp)
 	sigAt := len(ops) - 1
 	// one more instruction after the signature opcode (still part of the script code)
-	if vparam("TRAIL", 1) == 1 && vnondetBool("trailing") {
+	if vparam("TRAIL", 1) >= 1 && vnondetBool("trailing") {
 		k := vnondetLen("trailing-slot", 0, 2)
 		ops = append(ops, vslotBytes(k))
 		script = append(script, vslotBytes(k)...)
+		if vparam("TRAIL", 1) >= 2 && k == 1 && vnondetBool("trailing2") { // a not-yet-executed separator followed by one more opcode
+			ops = append(ops, vslotBytes(0))
+			script = append(script, vslotBytes(0)...)
+		}
 	}
 	tx := &bt.Tx{Version: vnondetU32("version"), LockTime: vnondetU32("locktime")}
 	nIn := 2
